@@ -56,9 +56,24 @@ def directed_reuse_program(rng):
                 feats=["directed-id-reuse"], nch=2, early=None)
 
 
+def directed_pr_close_program(rng):
+    """close() right after a message on a partially reliable channel which the network then loses: the reset has to wait until
+    the message left the sent queue - by being abandoned, not acknowledged - and nothing else is sent afterwards."""
+    creator = rng.choice("AB")
+    pr = dict(maxRetransmits=0, maxPacketLifeTime=None) if rng.random() < 0.6 else dict(maxRetransmits=None, maxPacketLifeTime=rng.choice([1, 200]))
+    ops = [("create", -1.0, 0, dict(creator=creator, label="c0|pr", protocol="", ordered=rng.random() < 0.5, negotiated=None, **pr))]
+    t = 1.0
+    for j in range(rng.randint(1, 3)):
+        ops.append(("send", round(t + 0.001 * j, 4), 0, creator, rng.choice([30, 900, 2500]), rng.random() < 0.5))
+    ops.append(("close", round(t + 0.004, 4), 0, creator))
+    return dict(heal=6.0, faults="half-loss", ops=ops, end="none", start=dict(A=0.0, B=0.0), feats=["directed-pr-close"], nch=1, early=None)
+
+
 def gen_program(rng, tier, force_shape=None):
     if force_shape == "directed-id-reuse" or (force_shape is None and rng.random() < 0.02):
         return directed_reuse_program(rng)
+    if force_shape is None and rng.random() < 0.03:
+        return directed_pr_close_program(rng)
     heal = rng.choice([3.0, 6.0, 12.0])
     faults = rng.choice(["none", "none", "light", "heavy", "handshake", "none", "light", "reset-lossy"])
     if faults == "reset-lossy":
@@ -161,6 +176,8 @@ def fault_spec(rng, faults):
         return {"latency": 0.02, "profile": "light", "loss": 0.03, "dup": 0.05, "jitter": 0.05}
     if faults == "reset-lossy":
         return {"latency": 0.02, "profile": "reset-lossy", "loss": 0.02, "kind_loss": {"reconfig": 0.85}}
+    if faults == "half-loss":
+        return {"latency": 0.02, "profile": "half-loss", "loss": 0.5}
     if faults == "reset-delayed":
         return {"latency": 0.02, "profile": "reset-delayed", "loss": 0.0, "kind_extra": {"reconfig": (0.0, 3.0)}}
     if faults == "handshake":
